@@ -85,7 +85,9 @@ CHECKS["C04"]["text"] += " Additionally (observation of real runs, not a solver 
 CHECKS["C05"]["text"] += " Additionally (evaluation of real output, not a solver query): every solution returned for the certificate engine's universes is checked for support - each selected solvable is reachable from the root or an accepted soft requirement through requirement edges whose chosen candidate is selected."
 CHECKS["C15"]["text"] += CERT + "per package, the forbid clauses the real Encoder emitted (registration order and grouping as they happen in real solves, up to 9 candidates per package) admit every single registered candidate and no two together, and every pair of candidates revealed through requirements is excluded by the clause database."
 CHECKS["C15"]["note"] += CERT_NOTE
-CHECKS["C16"]["text"] += ""
+CHECKS["C16"]["text"] = CHECKS["C16"]["text"].replace("PARTIAL: verdict equivalence with the live provider, capture (from_provider), candidate order and the JSON round trip are not decided (see C19 for Mapping serde).", "") + CERT.replace("families plain/full/wide/hints/hard/deep/lazycon/soft/reuse", "family snapshot: no favored/locked, single version sets as root requirements") + "the universe is captured with DependencySnapshot::from_provider and solved through SnapshotProvider directly and after a serde_json round trip: both verdicts equal SAT(Spec(U)) of the LIVE data, both solutions satisfy Spec(U) and equal the live solution (preference order preserved, including union member order), and add_package_requirement returns an id outside the captured ones and leaves them resolvable. PARTIAL: universes are enumerated; only the Kani kernel is symbolic."
+CHECKS["C16"]["note"] += CERT_NOTE
+CHECKS["C16"]["technique"] += "; SMT (z3) decision of snapshot verdict/solution against the live data per enumerated universe"
 NEW = {
     "C03": ("For every universe of the enumerated families whose verdict is Unsolvable, the conflict graph returned by the real Conflict::graph is checked: every edge is compared with the universe (requirement belongs to its source and its targets are exactly its candidates, or the unresolved node; constrains/lock/exclusion targets really are non-matching/locked out/excluded; forbid edges join one package), every node is reachable from the root, and z3 decides that root AND the facts shown in the graph alone (plus one-per-package for forbid-joined nodes) is UNSAT. Every learnt clause is certified against its recorded antecedents (learnt_why), which is what the report expands. PARTIAL: universes are enumerated (not symbolic); the simplified graph, graphviz and the text are rendered but their content is not compared.",
             "SMT (z3) refutation of the facts shown in the real conflict graph + entailment of learnt clauses from their recorded antecedents, per enumerated universe"),
@@ -136,7 +138,7 @@ def main():
         "engines": [
             {"name": "kani", "path": "/verif/lib/common.py", "serves_properties": sorted(k for k in CHECKS if CHECKS[k].get("engine", "kani") == "kani"),
              "kind_free_text": "cargo-kani 0.68 (CBMC 6.11 + CaDiCaL) on harnesses under /verif/kani attached to a scratch copy of /repo"},
-            {"name": "cert", "path": "/verif/lib/cert.py", "serves_properties": ["C01", "C02", "C03", "C04", "C05", "C07", "C08", "C13", "C14", "C15"],
+            {"name": "cert", "path": "/verif/lib/cert.py", "serves_properties": ["C01", "C02", "C03", "C04", "C05", "C07", "C08", "C13", "C14", "C15", "C16"],
              "kind_free_text": "certificate engine: native/cert runs the real Solver::solve of the scratch copy on enumerated universes and dumps clause database, learnt clauses, conflict graph; lib/cert.py asks z3 (python3-vt) the entailment/satisfiability questions over all selections"},
             {"name": "z3", "path": "/verif/lib/c15_z3.py", "serves_properties": ["C15"],
              "kind_free_text": "z3 (python3-vt) + cvc5 on the CNF emitted by the real binary_encoding.rs executed natively from the scratch copy"},
